@@ -1044,6 +1044,8 @@ impl HomeRelayWatch {
     /// the time the old actor tries to write, the URL no longer matches.
     fn set_status(&self, url: &RelayUrl, state: RelayConnectionState) {
         if self.inner.get().as_ref().map(RelayStatus::url) == Some(url) {
+            #[cfg(iroh_verif)]
+            iroh_base::verif::pause("home_relay_watch.set_status.between_read_and_write");
             let _ = self.inner.set(Some(RelayStatus::new(url.clone(), state)));
         }
     }
@@ -1054,6 +1056,23 @@ impl HomeRelayWatch {
 
     pub(crate) fn watch(&self) -> n0_watcher::Direct<Option<RelayStatus>> {
         self.inner.watch()
+    }
+}
+
+/// Accessors for the verification harness (property C26): the private write methods, unchanged.
+#[cfg(iroh_verif)]
+impl HomeRelayWatch {
+    pub(crate) fn verif_set(&self, url: RelayUrl, state: RelayConnectionState) {
+        self.set(url, state)
+    }
+    pub(crate) fn verif_clear(&self) {
+        self.clear()
+    }
+    pub(crate) fn verif_set_status(&self, url: &RelayUrl, state: RelayConnectionState) {
+        self.set_status(url, state)
+    }
+    pub(crate) fn verif_get(&self) -> Option<RelayStatus> {
+        self.get()
     }
 }
 
